@@ -139,7 +139,7 @@ class Gen:
             return n
         if k == "fstep":  # failing step caught by try
             cls = rng.choice(["ValueError", "UserErr", "KeyError"])
-            n = {"k": "step", "script": [{"do": "fail", "cls": cls, "msg": "m%d" % rng.randrange(10)}], "sem": sem,
+            n = {"k": "step", "script": [{"do": "fail", "cls": cls, "msg": rng.choice(["", "m%d" % rng.randrange(10), "m%d" % rng.randrange(10)])}], "sem": sem,
                  "retry": rng.choice([{"kind": "preset", "name": "none"}, {"decisions": [("stop",)]}])}
             return {"k": "try", "body": n, "catch": rng.choice(["*", ["CallableRuntimeError"], ["Exception"]])}
         if k == "fwfc":  # wait_for_condition whose check raises, caught by try
